@@ -79,6 +79,7 @@ type Op struct {
 	// purpose is to obtain a LastEvaluatedKey).
 	Blind      bool `json:"blind,omitempty"`
 	Consistent bool `json:"consistent,omitempty"` // ConsistentRead on Get / Query / Scan / BatchGet
+	TrySpec    bool `json:"trySpec,omitempty"`    // execute the request even if the model calls it speculative (3.2)
 	Repeat     bool `json:"repeat,omitempty"`     // the driver sends the same request object twice and returns the second response
 }
 
